@@ -246,6 +246,12 @@ pub fn lazy_cases(out: &mut Out, doc: &[u8], path: &[PathElem], rng: &mut Rng) {
         let v2: Value = sonic_rs::from_str(&sonic_rs::to_string(&o).unwrap()).unwrap();
         if v2 == v { accessors(&sonic_rs::from_slice::<OwnedLazyValue>(&raw).unwrap()) } else { "to_lazyvalue changed the value".into() }
     })), nt);
+    // ... and the owned lazy value it returns is a view of the text it holds
+    if let Ok(v) = sonic_rs::from_slice::<Value>(&raw) {
+        if let Ok(text) = sonic_rs::to_string(&v) {
+            out.case("lazyacc", &[&hex(text.as_bytes()), "the value returned by to_lazyvalue"], &pg(guarded(|| accessors(&sonic_rs::to_lazyvalue(&v).unwrap()))), nt);
+        }
+    }
     // the unchecked routes
     if let Ok(lu) = unsafe { sonic_rs::get_unchecked(doc, p.iter()) } {
         let hu = hex(lu.as_raw_str().as_bytes());
